@@ -786,3 +786,265 @@ func ruleR0210(c *Ctx) {
 		c.Undecided("funcGen#flag-stores", token.NoPos, "no store into a purity flag found (the setter Function.Pure is expected)")
 	}
 }
+
+// ---------------------------------------------------------------------------
+// R02.11 the optimizer folds a call of a closure only for an argument count
+// that the generated call accepts
+//
+// The generated code of a call compares the number of arguments with the
+// closure's Args (Function.argsNumberNotMatching) and fails on a mismatch. The
+// optimizer applies a constant closure itself; if its own test lets through a
+// count the generated code rejects, the folded program has a value (surplus
+// arguments are ignored) where the unoptimized one has an error. Both tests
+// only compare Args, the count and constants, so they are evaluated over all
+// orderings of (Args, count) in a small range.
+
+type arityEnv struct {
+	c    *Ctx
+	info *types.Info
+	a, n int64
+	fail string
+}
+
+func (e *arityEnv) num(x ast.Expr) (int64, bool) {
+	x = ast.Unparen(x)
+	if tv := e.info.Types[x]; tv.Value != nil && tv.Value.Kind() == constant.Int {
+		return constant.Int64Val(tv.Value)
+	}
+	switch t := x.(type) {
+	case *ast.SelectorExpr:
+		if t.Sel.Name == "Args" {
+			if v, ok := e.info.ObjectOf(t.Sel).(*types.Var); ok && v.IsField() {
+				if _, isInt := v.Type().Underlying().(*types.Basic); isInt {
+					return e.a, true
+				}
+			}
+		}
+	case *ast.CallExpr:
+		if id, ok := ast.Unparen(t.Fun).(*ast.Ident); ok && id.Name == "len" {
+			if _, isB := e.info.Uses[id].(*types.Builtin); isB {
+				return e.n, true
+			}
+		}
+	case *ast.Ident:
+		// the count parameter of the reference predicate
+		if v, ok := e.info.ObjectOf(t).(*types.Var); ok && !v.IsField() {
+			if b, ok := v.Type().Underlying().(*types.Basic); ok && b.Info()&types.IsInteger != 0 {
+				return e.n, true
+			}
+		}
+	case *ast.UnaryExpr:
+		if t.Op == token.SUB {
+			if v, ok := e.num(t.X); ok {
+				return -v, true
+			}
+		}
+	}
+	if e.fail == "" {
+		e.fail = nodeStr(e.c.Fset, x)
+	}
+	return 0, false
+}
+
+func (e *arityEnv) truth(x ast.Expr) bool {
+	x = ast.Unparen(x)
+	switch t := x.(type) {
+	case *ast.UnaryExpr:
+		if t.Op == token.NOT {
+			return !e.truth(t.X)
+		}
+	case *ast.BinaryExpr:
+		switch t.Op {
+		case token.LAND:
+			return e.truth(t.X) && e.truth(t.Y)
+		case token.LOR:
+			return e.truth(t.X) || e.truth(t.Y)
+		case token.EQL, token.NEQ, token.LSS, token.LEQ, token.GTR, token.GEQ:
+			l, ok1 := e.num(t.X)
+			r, ok2 := e.num(t.Y)
+			if !ok1 || !ok2 {
+				return false
+			}
+			switch t.Op {
+			case token.EQL:
+				return l == r
+			case token.NEQ:
+				return l != r
+			case token.LSS:
+				return l < r
+			case token.LEQ:
+				return l <= r
+			case token.GTR:
+				return l > r
+			case token.GEQ:
+				return l >= r
+			}
+		}
+	}
+	if e.fail == "" {
+		e.fail = nodeStr(e.c.Fset, x)
+	}
+	return false
+}
+
+func ruleR0211(c *Ctx) {
+	decls, fg := c.optimizerMethods()
+	a := c.genAnchors()
+	if len(decls) == 0 || len(a.missing) > 0 {
+		c.Undecided("funcGen:Optimizer-implementations", token.NoPos, "anchors not found")
+		return
+	}
+	info := fg.TypesInfo
+	// the reference: the method of Function with one integer parameter whose single return is a condition over Args
+	var ref ast.Expr
+	var refName string
+	for _, f := range fg.Syntax {
+		for _, d := range f.Decls {
+			fd, ok := d.(*ast.FuncDecl)
+			if !ok || fd.Body == nil || fd.Recv == nil || recvTypeName(fd.Recv.List[0].Type) != "Function" || len(fd.Body.List) != 1 || fd.Type.Params.NumFields() != 1 {
+				continue
+			}
+			r, ok := fd.Body.List[0].(*ast.ReturnStmt)
+			if !ok || len(r.Results) != 1 {
+				continue
+			}
+			if b, ok := info.TypeOf(r.Results[0]).Underlying().(*types.Basic); !ok || b.Kind() != types.Bool {
+				continue
+			}
+			if containsNode(r.Results[0], func(y ast.Node) bool { s, ok := y.(*ast.SelectorExpr); return ok && s.Sel.Name == "Args" }) {
+				// used by generated code as the mismatch test?
+				obj, _ := info.Defs[fd.Name].(*types.Func)
+				used := false
+				for _, gi := range c.generatorFuncs(a, c.forwarders(a)) {
+					if containsNodeDeep(gi.decl.Body, func(y ast.Node) bool {
+						call, ok := y.(*ast.CallExpr)
+						return ok && obj != nil && Callee(gi.pkg.TypesInfo, call) == obj.Origin()
+					}) {
+						used = true
+					}
+				}
+				if used {
+					if ref != nil {
+						c.Undecided("funcGen.Function#arity-test", fd.Pos(), "more than one arity test used by generated code (%s, %s)", refName, fd.Name.Name)
+						return
+					}
+					ref, refName = r.Results[0], fd.Name.Name
+				}
+			}
+		}
+	}
+	if ref == nil {
+		c.Undecided("funcGen.Function#arity-test", token.NoPos, "the arity test of the generated call (a method of Function over Args) was not found")
+		return
+	}
+	n := 0
+	for _, fd := range decls {
+		k := 0
+		ast.Inspect(fd.Body, func(x ast.Node) bool {
+			call, ok := x.(*ast.CallExpr)
+			if !ok {
+				return true
+			}
+			// X.Func(...) with X a Function obtained from ToClosure, or X handed to a helper that runs its parameter
+			var xid *ast.Ident
+			if sel, ok := ast.Unparen(call.Fun).(*ast.SelectorExpr); ok && sel.Sel.Name == "Func" {
+				xid, _ = ast.Unparen(sel.X).(*ast.Ident)
+			} else if cal := Callee(info, call); cal != nil && cal.Pkg() == fg.Types {
+				if hd := findFuncDecl(fg, cal); hd != nil && hd.Body != nil && hd.Type.Params != nil {
+					pi := 0
+					for _, fl := range hd.Type.Params.List {
+						for _, nm := range fl.Names {
+							pobj := info.Defs[nm]
+							runs := containsNodeDeep(hd.Body, func(y ast.Node) bool {
+								cc, ok := y.(*ast.CallExpr)
+								if !ok {
+									return false
+								}
+								s2, ok := ast.Unparen(cc.Fun).(*ast.SelectorExpr)
+								if !ok || s2.Sel.Name != "Func" {
+									return false
+								}
+								id, ok := ast.Unparen(s2.X).(*ast.Ident)
+								return ok && info.ObjectOf(id) == pobj
+							})
+							if runs && pi < len(call.Args) {
+								if id, ok := ast.Unparen(call.Args[pi]).(*ast.Ident); ok {
+									xid = id
+								}
+							}
+							pi++
+						}
+					}
+				}
+			}
+			if xid == nil || !isNamed(info.TypeOf(xid), modPath+"/funcGen", "Function") {
+				return true
+			}
+			as, _ := definingAssign(info, fd, info.ObjectOf(xid))
+			if as == nil || len(as.Rhs) != 1 {
+				return true
+			}
+			oc, ok := ast.Unparen(as.Rhs[0]).(*ast.CallExpr)
+			if !ok {
+				return true
+			}
+			if cal := Callee(info, oc); cal == nil || cal.Name() != "ToClosure" {
+				return true
+			}
+			k++
+			n++
+			key := fmt.Sprintf("%s#closure-fold-arity[%d]", declName(fg, fd), k)
+			// the conditions over X.Args under which the call is reached
+			var conds []Guard
+			for _, gd := range c.GuardsDeep(call) {
+				if gd.Synth || gd.Derived {
+					continue
+				}
+				if containsNode(gd.Cond, func(y ast.Node) bool {
+					s, ok := y.(*ast.SelectorExpr)
+					if !ok || s.Sel.Name != "Args" {
+						return false
+					}
+					id, ok := ast.Unparen(s.X).(*ast.Ident)
+					return ok && info.ObjectOf(id) == info.ObjectOf(xid)
+				}) {
+					conds = append(conds, gd)
+				}
+			}
+			var counter string
+			undecided := ""
+			for av := int64(-1); av <= 4 && counter == "" && undecided == ""; av++ {
+				for nv := int64(0); nv <= 4; nv++ {
+					env := &arityEnv{c: c, info: info, a: av, n: nv}
+					fold := true
+					for _, gd := range conds {
+						if env.truth(gd.Cond) != gd.Val {
+							fold = false
+						}
+					}
+					mismatch := env.truth(ref)
+					if env.fail != "" {
+						undecided = env.fail
+						break
+					}
+					if fold && mismatch {
+						counter = fmt.Sprintf("Args=%d, %d arguments", av, nv)
+						break
+					}
+				}
+			}
+			switch {
+			case undecided != "":
+				c.Undecided(key, call.Pos(), "a condition over Args is not a comparison of Args, the argument count and constants (%s)", undecided)
+			case counter != "":
+				c.Violation(key, call.Pos(), "the optimizer applies a constant closure for an argument count that the generated call rejects (%s: the test in front of the fold lets it through, %s of the generated code reports a wrong number of arguments): the folded program has a value where the unoptimized program has an error - `let dbl=x->x*2; dbl(3,4)` is 6 with the optimizer", counter, refName)
+			default:
+				c.OK(key, call.Pos(), "for Args in -1..4 and 0..4 arguments the optimizer folds only where %s of the generated code accepts the count", refName)
+			}
+			return true
+		})
+	}
+	if n < 1 {
+		c.Undecided("funcGen.optimizer#closure-fold", token.NoPos, "no application of a constant closure by the optimizer found")
+	}
+}
